@@ -1,4 +1,7 @@
 import PyemvProofs.Parity
+import PyemvProps.C03
+import PyemvProps.C05
+import PyemvModel.Cvn
 /-! # C13 — every derived key is a 16-byte odd-parity DES key, equal up to parity bits -/
 namespace Pyemv.C13
 open Pyemv Spec
@@ -52,6 +55,153 @@ theorem visa_sk_key (mk atc k : Bytes) (h : deriveVisaSmSk mk atc = .ok k) : Odd
   simp only [Except.ok.injEq] at h
   rw [← h]
   exact adjust_key _ (by simp [xor_length, zeros, h2])
+
+theorem a2bHex_length : ∀ (n : Nat) (s : PyStr) (b : Bytes), s.length ≤ n → a2bHex s = .ok b → 2 * b.length = s.length := by
+  intro n
+  induction n with
+  | zero => intro s b hs h; have : s = [] := List.eq_nil_of_length_eq_zero (by omega); subst this; simp [a2bHex] at h; subst h; rfl
+  | succ n ih =>
+    intro s b hs h
+    match s, h with
+    | [], h => simp [a2bHex] at h; subst h; rfl
+    | [_], h => simp [a2bHex] at h
+    | x :: y :: rest, h =>
+      simp only [a2bHex] at h
+      cases hx : hexVal x with
+      | none => simp [hx] at h
+      | some a =>
+        cases hy : hexVal y with
+        | none => simp [hx, hy] at h
+        | some c =>
+          cases hr : a2bHex rest with
+          | error e => simp [hx, hy, hr, bind, Except.bind] at h
+          | ok r =>
+            simp only [hx, hy, hr, bind, Except.bind, pure, Except.pure, Except.ok.injEq] at h
+            subst h
+            have := ih rest r (by simp at hs; omega) hr
+            simp; omega
+
+theorem keyFromData_key (issMk dataA k : Bytes) (hd : dataA.length = 8) (h : keyFromData issMk dataA = .ok k) :
+    OddParityKey k := by
+  unfold keyFromData at h
+  cases he : encryptTdesEcb issMk (dataA ++ xor dataA (List.replicate dataA.length 0xFF)) with
+  | error e => simp [he, bind, Except.bind] at h
+  | ok c =>
+    simp only [he, bind, Except.bind, pure, Except.pure, Except.ok.injEq] at h
+    rw [← h]
+    exact adjust_key c (ecb16_length issMk _ c (by simp [xor_length, hd]) he)
+
+/-- option A: whatever is returned is a 16-byte odd-parity key (any issuer key size the cipher accepts,
+any PAN/PSN text the packing accepts) -/
+theorem mk_a_key (issMk : Bytes) (pan : StrOrBytes) (psn : Option StrOrBytes) (k : Bytes)
+    (h : deriveIccMkA issMk pan psn = .ok k) : OddParityKey k := by
+  unfold deriveIccMkA at h
+  cases h1 : psnTextR psn with
+  | error e => simp [h1, bind, Except.bind] at h
+  | ok ps =>
+    cases h2 : pan.text with
+    | error e => simp [h1, h2, bind, Except.bind] at h
+    | ok pt =>
+      cases h3 : a2bHex (zfill 16 (lastN 16 (pt ++ ps))) with
+      | error e => simp [h1, h2, h3, bind, Except.bind] at h
+      | ok dataA =>
+        simp only [h1, h2, h3, bind, Except.bind] at h
+        have hl := a2bHex_length _ _ dataA (Nat.le_refl _) h3
+        rw [C03.zfill16_length _ (C03.lastN_length_le 16 _)] at hl
+        exact keyFromData_key issMk dataA k (by omega) h
+
+/-- option B: likewise -/
+theorem mk_b_key (issMk : Bytes) (pan : StrOrBytes) (psn : Option StrOrBytes) (k : Bytes)
+    (h : deriveIccMkB issMk pan psn = .ok k) : OddParityKey k := by
+  unfold deriveIccMkB at h
+  split at h
+  · exact mk_a_key issMk pan psn k h
+  · cases h1 : psnTextR psn with
+    | error e => simp [h1, bind, Except.bind] at h
+    | ok ps =>
+      cases h2 : pan.text with
+      | error e => simp [h1, h2, bind, Except.bind] at h
+      | ok pt =>
+        cases h3 : bcdPanPsn pt ps with
+        | error e => simp [h1, h2, h3, bind, Except.bind] at h
+        | ok hashed =>
+          cases h4 : a2bHex (selectDigits (sha1Hex hashed)) with
+          | error e => simp [h1, h2, h3, h4, bind, Except.bind] at h
+          | ok dataA =>
+            simp only [h1, h2, h3, h4, bind, Except.bind] at h
+            have hl := a2bHex_length _ _ dataA (Nat.le_refl _) h4
+            have hdl : 16 ≤ (sha1Hex hashed).length := by
+              unfold sha1Hex; rw [C03.hexLower_length, Sha1.sha1_length]; omega
+            have hf := (C03.decimalise16_facts (sha1Hex hashed) (by unfold sha1Hex; exact C03.hexLower_chars _) hdl).1
+            rw [C03.code_selection_eq, hf] at hl
+            exact keyFromData_key issMk dataA k (by omega) h
+
+theorem IK_length (b : Nat) (mk iv : Bytes) (hmk : mk.length = 16) : ∀ i j, (Tree.IK phi b mk iv i j).length = 16 := by
+  intro i j
+  cases i with
+  | zero => exact hmk
+  | succ i => unfold Tree.IK Tree.derive; exact phi_length _ _ _
+
+/-- the tree session key: whatever is returned is a 16-byte odd-parity key -/
+theorem tree_sk_key (mk atc iv : Bytes) (h b : Nat) (k : Bytes) (hk : deriveEmv2000TreeSk mk atc h b iv = .ok k) :
+    OddParityKey k := by
+  have hrej : (mk.length ≠ 16 ∨ atc.length ≠ 2 ∨ iv.length ≠ 16) → deriveEmv2000TreeSk mk atc h b iv = .error .valueError := by
+    intro hbad
+    unfold deriveEmv2000TreeSk
+    by_cases a1 : mk.length = 16 <;> by_cases a2 : atc.length = 2 <;> by_cases a3 : iv.length = 16 <;>
+      simp_all [bind, Except.bind, throw, throwThe, MonadExceptOf.throw]
+  by_cases hbad : mk.length ≠ 16 ∨ atc.length ≠ 2 ∨ iv.length ≠ 16
+  · rw [hrej hbad] at hk; cases hk
+  have h1 : mk.length = 16 := by apply Classical.byContradiction; intro c; exact hbad (Or.inl c)
+  have h2 : atc.length = 2 := by apply Classical.byContradiction; intro c; exact hbad (Or.inr (Or.inl c))
+  have h3 : iv.length = 16 := by apply Classical.byContradiction; intro c; exact hbad (Or.inr (Or.inr c))
+  by_cases hg : b ^ h ≤ 65535
+  · rw [C05.gate_rejects mk atc iv b h h1 h2 h3 hg] at hk; cases hk
+  · have hb : 0 < b := by
+      apply Nat.pos_of_ne_zero; intro hb0; subst hb0
+      cases h with
+      | zero => simp at hg
+      | succ n => simp at hg
+    cases h with
+    | zero => simp at hg
+    | succ H =>
+      rw [C05.tree_sk_eq_spec mk atc iv b H h1 h2 h3 hb (by omega)] at hk
+      cases hk
+      apply adjust_key
+      unfold Tree.skSpec
+      have l1 := IK_length b mk iv h1 (H + 1) (fromBE atc)
+      have l2 : (Tree.GP phi b mk iv H (fromBE atc)).length = 16 := by
+        unfold Tree.GP; cases H with
+        | zero => exact h3
+        | succ H' => exact IK_length b mk iv h1 _ _
+      rw [xorB_length _ _ (by rw [l1, l2]), l1]
+
+/-- the three keys stored on every cryptogram-version object are 16-byte odd-parity keys -/
+theorem ctor_keys (p : Cvn.Profile) (k1 k2 k3 : Bytes) (pan : StrOrBytes) (psn : Option StrOrBytes) (card : Cvn.Card)
+    (h : Cvn.new p k1 k2 k3 pan psn = .ok card) :
+    OddParityKey card.ac ∧ OddParityKey card.smi ∧ OddParityKey card.smc := by
+  unfold Cvn.new at h
+  have key : ∀ (der : Bytes → StrOrBytes → Option StrOrBytes → R Bytes),
+      (∀ a b c k, der a b c = .ok k → OddParityKey k) →
+      (do let a ← der k1 pan (some (Cvn.psnOr00 psn)); let i ← der k2 pan (some (Cvn.psnOr00 psn));
+          let c ← der k3 pan (some (Cvn.psnOr00 psn)); pure (⟨a, i, c⟩ : Cvn.Card)) = .ok card →
+      OddParityKey card.ac ∧ OddParityKey card.smi ∧ OddParityKey card.smc := by
+    intro der hder hh
+    cases ha : der k1 pan (some (Cvn.psnOr00 psn)) with
+    | error e => simp [ha, bind, Except.bind] at hh
+    | ok a =>
+      cases hi : der k2 pan (some (Cvn.psnOr00 psn)) with
+      | error e => simp [ha, hi, bind, Except.bind] at hh
+      | ok i =>
+        cases hc : der k3 pan (some (Cvn.psnOr00 psn)) with
+        | error e => simp [ha, hi, hc, bind, Except.bind] at hh
+        | ok c =>
+          simp only [ha, hi, hc, bind, Except.bind, pure, Except.pure, Except.ok.injEq] at hh
+          subst hh
+          exact ⟨hder _ _ _ _ ha, hder _ _ _ _ hi, hder _ _ _ _ hc⟩
+  cases hm : p.mkOpt with
+  | a => rw [hm] at h; exact key deriveIccMkA (fun a b c k => mk_a_key a b c k) h
+  | b => rw [hm] at h; exact key deriveIccMkB (fun a b c k => mk_b_key a b c k) h
 
 example : OddParityKey (adjustKeyParity (List.replicate 16 0xFF)) := adjust_key _ (by simp)
 example : adjustKeyParity [0xFF, 0x00, 0xFE] = [0xFE, 0x01, 0xFE] := by decide
